@@ -163,7 +163,10 @@ def do_thread_plan(world, plan):
     elif use == "via_subclass" and "sub" in classes:
         out["subinst"] = abs_instance(classes["sub"](**{k: world.build(v, False) for k, v in plan["sub_kw"].items()}))
     cls = classes[role]
-    inst = cls(**{k: world.build(v, False) for k, v in plan["kw"].items()})
+    if use == "pre_inst_helper":
+        inst = world.pre_inst  # created before the threads started (see C19._pre_phase)
+    else:
+        inst = cls(**{k: world.build(v, False) for k, v in plan["kw"].items()})
     out["inst"] = abs_instance(inst)
     out["repr"] = strip_addr(repr(inst))
     if plan.get("first_use") == "helper_on_class":
@@ -266,10 +269,25 @@ class C19(Check):
                     plans[0].update({"first_use": "helper_on_class", "use_cls": "sub"})
                     plans[1].update({"first_use": "instantiate", "role": "sub", "kw": self.gen_kw(src, spec, "sub")})
                     first = 0  # the lookup starts first (what happens once it is pre-empted is up to the schedule)
+            elif spec.get("sub") and spec["sub"]["kind"] == "spec" and len(plans) >= 2 and src.chance(0.45):
+                # the hierarchy was first used through the subclass, whose own __new__ never reaches the parent's: the
+                # parent is bootstrapped but has not been instantiated yet.  One thread makes the first change to that
+                # existing subclass instance while another makes the parent's first direct instance.
+                spec["_pre_parent"] = "sub_inst"
+                spec["sub"]["own_new"] = "direct"
+                if src.chance(0.8):
+                    spec["host"]["new_shape"] = src.choice(["base", "mixin_base"])
+                helper = None
+                for _ in range(8):
+                    helper = helper or self.gen_helper(src, spec, "sub")
+                plans[0].update({"first_use": "pre_inst_helper", "role": "sub", "kw": self.gen_kw(src, spec, "sub"),
+                                 "helper": helper})
+                plans[1].update({"first_use": "instantiate", "role": "host", "kw": self.gen_kw(src, spec, "host")})
+                first = 0
         if ctx.replay:
             pre = c.get("pre_parent", False)
         else:
-            pre = bool(spec.pop("_pre_parent", False))
+            pre = spec.pop("_pre_parent", False)
         ctx.case.update({"spec": spec, "plans": plans, "first": first, "pre_parent": pre})
         self._pre_parent = pre
 
@@ -279,6 +297,7 @@ class C19(Check):
         ref_out = []
         ref_exc = None
         try:
+            self._pre_phase(ref_world, plans)
             for p in plans:
                 ref_out.append(do_thread_plan(ref_world, p))
             ref_desc = {r: describe_class(c) for r, c in ref_world.classes.items() if not r.startswith("__")}
@@ -301,7 +320,13 @@ class C19(Check):
             hot = [i + 1 for i, (_, site) in enumerate(probe.trace_sites)
                    if site.split(":")[1] in ANCHORED or site.startswith("spec_class.py")]
             shape = src.weighted([("bounded", 2), ("site", 2.5), ("sync", 4), ("pct", 1), ("random", 1)])
-            pol = make_policy(src.rng, shape, seq_steps, list(probe.trace_sites) if shape == "site" else hot, len(plans))
+            focus = None
+            if pre == "sub_inst" and src.chance(0.6):
+                # what this set-up adds is the (lock-free) first computation of the subclass's invalidation map racing
+                # with the parent's first instantiation
+                shape, focus = "site", "spec_class.py:invalidation_map"
+            pol = make_policy(src.rng, shape, seq_steps, list(probe.trace_sites) if shape == "site" else hot, len(plans),
+                              focus=focus)
             pol_json = policy_to_json(pol)
             sched = Sched(policy=pol, step_cap=50 * max(seq_steps, 100))
             ctx.bump("seq_steps", seq_steps)
@@ -366,14 +391,21 @@ class C19(Check):
         saved = patch_locks(sched)
         try:
             world = World(spec)
-            if getattr(self, "_pre_parent", False):
-                getattr(world.classes["host"], "__spec_class__")  # (a metadata lookup bootstraps the parent only)
+            self._pre_phase(world, plans)
             for i, p in enumerate(plans):
                 sched.add(lambda p=p: do_thread_plan(world, p))
             sched.run(first=first)
         finally:
             unpatch_locks(saved)
         return world, [t.result for t in sched.threads]
+
+    def _pre_phase(self, world, plans):
+        """What happened to the classes, sequentially, before the threads of the run start."""
+        pre = getattr(self, "_pre_parent", False)
+        if pre == "sub_inst":
+            world.pre_inst = world.classes["sub"](**{k: world.build(v, False) for k, v in plans[0]["kw"].items()})
+        elif pre:
+            getattr(world.classes["host"], "__spec_class__")  # (a metadata lookup bootstraps the parent only)
 
     def shrink_candidates(self, case):
         sw = case.get("switches", [])
